@@ -600,7 +600,7 @@ def corpus_check(ctx, fam, build, K, extra_adv, level_extra, assumptions, floors
             for d in r["res"]["drivers"]:
                 d["_extra"] = True
             # self-validation of the extra run happens in its own workspace
-            a, b = self_validate(r["ctx"], r["res"], impl_tree="out", order_free=r"Gr_map")
+            a, b = self_validate(r["ctx"], r["res"], impl_tree="out", order_free=r"Gr_(call)?map")
             sv_extra += a
             sv_mism_extra += b
         new += r["new"]; known += r["known"]; replayed += r["replayed"]; mism += r["mism"]; details += r["details"]; fe_details += r["fe_details"]
@@ -642,7 +642,7 @@ def corpus_check(ctx, fam, build, K, extra_adv, level_extra, assumptions, floors
         extra["second_pass"] = main["second"]
     extra.update(level_extra)
     return finish(ctx, res, "translation_validation", new, known, replayed, mism, extra, assumptions, floors,
-                  sv={"impl_tree": "out", "order_free": r"Gr_map"})
+                  sv={"impl_tree": "out", "order_free": r"Gr_(call)?map"})
 
 
 REF_ASSUMPTION = "reference = the source file itself executed from its SSA with the coroutine semantics of DESIGN §2 for Yield/YieldFrom/MoveNext/Current/range-over-Iter (engine intrinsics, no code shared with rewriter or seq)"
@@ -682,6 +682,14 @@ def plan_C02(ctx):
             corp.add(gen.Program("dy_%s" % name, body, helpers=gen.C05_HELPERS, named_result=True, family="dyf", tags={"directed:" + name}))
             nd += 1
         counts["delegation_shapes"] = nd
+        # range over a buffered channel with observers (len(ch), a second receiver) between the
+        # receives: each advance performs exactly the receives of the source
+        nch = 0
+        for p in gen.c04_programs(strlens=()):
+            if p.family == "rng_chan" and "range-var-captured-across-iterations" not in p.tags:  # F7 hosts are C03/C04's subject
+                corp.add(p)
+                nch += 1
+        counts["channel_range_programs"] = nch
         return counts
 
     extra = {
@@ -719,7 +727,7 @@ def plan_C18(ctx):
             body = copy.deepcopy(body)
             body = gen.inject_panic(body, rng, gen.Ctr())
             helpers = ""
-            if "H3(" in repr(body) or "PT(" in repr(body) or "PS(" in repr(body):
+            if "H3(" in repr(body) or "PT(" in repr(body) or "PS(" in repr(body) or "PN(" in repr(body):
                 helpers += gen.PANIC_HELPERS
             if "H2(" in repr(body):
                 helpers += C01_HELPERS
@@ -729,7 +737,7 @@ def plan_C18(ctx):
             p.twin_key = "c18"
             n += 1
             corp.add(p)
-        return {"programs_with_one_panic_site": n, "panic_sites": ["panic(symbolic int)", "integer division by a symbolic zero", "index out of range (symbolic index)", "nil map store", "nil dereference", "panic(string)", "panic inside a delegate (YieldFrom)"]}
+        return {"programs_with_one_panic_site": n, "panic_sites": ["panic(symbolic int)", "integer division by a symbolic zero", "index out of range (symbolic index)", "nil map store", "nil dereference", "panic(string)", "panic inside a delegate (YieldFrom)", "panic(nil) and panic(nil error) - go 1.20 sources: recover() returns nil, the panic still unwinds", "panic(nil) inside a delegate", "panicking range operands"]}
 
     extra = {
         "bounds": {"advances_K": K, "loop_bound_n": "[-1,3]", "stop": "the driver stops after the first panic (iterator state after a panic is unspecified)",
@@ -946,7 +954,7 @@ CLAIMED["C04"] = plan_C04
 def plan_C06(ctx):
     def build(corp):
         rng = random.Random(ctx.seed * 613 + 6)
-        ps = gen.c06_programs(rng, ctx.q(16, 110))
+        ps = gen.c06_programs(rng, ctx.q(16, 60))
         for p in ps:
             corp.add(p)
         return {"consumer_programs": len(ps), "shapes": gen.C06_SHAPES,
@@ -957,7 +965,7 @@ def plan_C06(ctx):
         "bounds": {"loop_bound_n": "[-1,2]", "outside": "consumer shapes not generated; nil iterators; Current() before the first advance as control input; consumer loops that re-declare their variable in the body (rejected by the Go type checker after lowering: C11 territory)"},
         "explanation": "drivers call a consumer function (range with break/continue/return at guard-controlled points, := and = forms, nested ranges, pull+range on one iterator, iterators in struct fields / maps / slices / closures, generic helpers, method and generic generators); log = generator-side effects + consumer-side effects + final result; flat equality source-under-coroutine-semantics vs generated code. Incomplete Iter type replacement shows up as a generated package that does not type-check (front-end refutation, reported as unbuildable, not as a solver verdict).",
     }
-    return corpus_check(ctx, "c06", build, 0, 0, extra, [REF_ASSUMPTION, PROGRAM_DIM], floors={"drivers_holds": ctx.q(150, 1000)}, nlo=-1, nhi=2)
+    return corpus_check(ctx, "c06", build, 0, 0, extra, [REF_ASSUMPTION, PROGRAM_DIM], floors={"drivers_holds": ctx.q(150, 800)}, nlo=-1, nhi=2)
 
 
 CLAIMED["C06"] = plan_C06
